@@ -334,6 +334,17 @@ _W16 = world(extra0="input Flt {\n  q: Int = 5\n  tags: [String] = [\"a\"]\n}\ns
 _W16["union_sdl"] += "input Flt {\n  q: Int = 5\n  tags: [String] = [\"a\"]\n}\nscalar Stamp @specifiedBy(url: \"https://example.com/stamp\")\nenum E {\n  A @deprecated\n  B\n}\n"
 CASES["regress/KF-C16-14.json"] = exec_case("C16", "differs", '{ f: __type(name: "Flt") { inputFields { name defaultValue } } s: __type(name: "Stamp") { specifiedByURL } e: __type(name: "E") { enumValues(includeDeprecated: true) { name deprecationReason } } }', w=_W16)
 
+def upload_case(sig, ops, files, batch=False):
+    return {"property": "C19", "signature": sig, "case": {"batch": batch, "ops": ops, "files": files}}
+
+_B64 = base64.b64encode(b"hello file content").decode()
+CASES["regress/KF-C19-1.json"] = upload_case("bytes-differ",
+    [{"query": "mutation Up0($a: Upload, $b: Upload!) { f0: upload(file: $a, name: \"x\") { id } f1: attach(file: $b, note: \"n\") { id } }", "variables": {"a": None, "b": None}, "operationName": "Up0"}],
+    [{"name": "a.txt", "data_b64": _B64, "paths": ["variables.a", "variables.b"]}])
+CASES["regress/KF-C19-2.json"] = upload_case("response",
+    [{"query": "mutation Up0($in: FileInput!) { f0: uploadIn(input: $in) f1: attachIn(input: $in) }", "variables": {"in": {"file": None, "name": "n"}}, "operationName": "Up0"}],
+    [{"name": "a.txt", "data_b64": _B64, "paths": ["variables.in.file"]}])
+
 if __name__ == "__main__":
     import sys
     sys.path.insert(0, os.path.dirname(os.path.abspath(__file__)))
